@@ -14,14 +14,19 @@ Inductive keyk :=
 | KeyId                      (* key=None: the element itself *)
 | KeyMod (m : nat)           (* token mod m *)
 | KeyDiv (m : nat)           (* token / m *)
-| KeyIn (vs : list K).       (* 1 (True) if the token is in vs else 0 (False); also key=bool *)
+| KeyIn (vs : list K)        (* 1 (True) if the token is in vs else 0 (False); also key=bool *)
+| KeyPartial (inner : keyk) (have : list K).
+  (* key='attr' where only the elements in [have] carry the attribute:
+     getattr(x, key, x) falls back on the element itself, a key that equals no
+     attribute value (rendered as 1000 + token) *)
 
-Definition key_fn (k : keyk) : K -> K :=
+Fixpoint key_fn (k : keyk) : K -> K :=
   match k with
   | KeyId => fun x => x
   | KeyMod m => fun x => x mod m
   | KeyDiv m => fun x => x / m
   | KeyIn vs => fun x => bool_tok (memb x vs)
+  | KeyPartial inner have => fun x => if memb x have then key_fn inner x else 1000 + x
   end.
 
 Inductive vtk := VtId | VtAdd (c : nat).
